@@ -251,7 +251,14 @@ impl Run {
                 vio_json.push(J::obj().set("cluster", J::s(sig)).set("size", J::u(c.count)).set("witness", c.first.clone()));
             }
         }
-        let wall = self.started.elapsed().as_secs_f64();
+        // multi-process checks (C06, C15) pass the start of the whole check in VERIF_T0 (epoch seconds)
+        let wall = match std::env::var("VERIF_T0").ok().and_then(|t| t.parse::<f64>().ok()) {
+            Some(t0) => {
+                let now = std::time::SystemTime::now().duration_since(std::time::UNIX_EPOCH).map(|d| d.as_secs_f64()).unwrap_or(t0);
+                (now - t0).max(self.started.elapsed().as_secs_f64())
+            }
+            None => self.started.elapsed().as_secs_f64(),
+        };
         let mut cov = J::obj();
         let ev = stats.get("evaluations");
         cov.put("evaluations", J::u(ev));
